@@ -99,7 +99,11 @@ func (rn *c07Runner) runText(text string, files map[string]string, origin string
 		tc.Req = c07Request(w.Rng, deep)
 		tc.Seq = rn.nextSeq()
 		good := rn.x.RunTx(waf, &tc)
-		w.Cover("sequences_used", tc.Seq)
+		if c07IsEnumerated[tc.Seq] {
+			w.Cover("sequences_used", tc.Seq)
+		} else {
+			w.Count("random_sequences_used", 1)
+		}
 		w.Count("body_kind/"+tc.Req.BodyKind, 1)
 		w.Count("resp_body_kind/"+tc.Req.RespKind, 1)
 		w.Nontrivial(ch ^ fw.Hash(tc.Seq) ^ fw.Hash(string(tc.Req.URI)+"\x00"+string(tc.Req.Body)+"\x00"+string(tc.Req.RespBody)))
@@ -139,6 +143,14 @@ func (rn *c07Runner) runCfg(c *c07Cfg, nReq int) bool {
 	}
 	return ok
 }
+
+var c07IsEnumerated = func() map[string]bool {
+	m := map[string]bool{}
+	for _, s := range c07Sequences {
+		m[s] = true
+	}
+	return m
+}()
 
 func originKind(o string) string {
 	if i := strings.IndexByte(o, ':'); i >= 0 {
@@ -244,7 +256,10 @@ func c07Run(w *fw.W, b fw.Batch) {
 	}
 	rn.seqIdx = w.Rng.IntN(len(c07Sequences))
 	sweep := c07Sweep(&rn.voc, w.Rng)
-	w.Count("sweep_size", 0)
+	w.Max("sweep_size", int64(len(sweep)))
+	w.Count("panics", 0)
+	w.Count("cpu_bound_exceeded", 0)
+	w.Count("configs_panicked", 0)
 	n := 0
 	for i, c := range sweep {
 		if i%p.Parts != p.Part {
